@@ -113,7 +113,7 @@ Proof. intros T w l H. unfold pure_on. rewrite H. reflexivity. Qed.
 (* ---------- the hypotheses matter: tables with an effect break the property ---------- *)
 (* a renderer that caches its text in self (the kind of change "self._cached_sql = ..." in get_sql) *)
 Definition T_cache : effect_table :=
-  mkT [("Q", ["Q"])] [mkW (OnClass "Q") "Q.get_sql" "_cached_sql" "self"] [] ["Q.get_sql"] [].
+  mkT [("Q", ["Q"])] [mkW (OnClass "Q") "Q.get_sql" "_cached_sql" "self"] [] [] ["Q.get_sql"] [].
 
 Definition field_text (a : string) (t : tree) : string :=
   match t with
@@ -141,7 +141,7 @@ Proof. vm_compute. discriminate. Qed.
 (* the historical defect (fixed in 68bca14): FOR UPDATE OF rendered from a set *)
 Definition T_forupdate : effect_table :=
   mkT [("MySQLQueryBuilder", ["MySQLQueryBuilder"; "QueryBuilder"])] []
-      [mkI "MySQLQueryBuilder" "MySQLQueryBuilder._for_update_sql" "self._for_update_of"] [] [].
+      [mkI "MySQLQueryBuilder" "MySQLQueryBuilder._for_update_sql" "self._for_update_of"] [] [] [].
 
 Definition set_text (a : string) (ord : order) (w_members : list value) : string :=
   join ", " (map (fun v => match v with VAtom s => s | _ => "?" end) (ord w_members)).
